@@ -20,6 +20,17 @@ def fn_term(cx, f):
         return None
     tm = cx.gm.terms_of(fw)
     t = tm.block_value_term(f.block, 0)
+    st = f.block.get('stmts') or []
+    if t == ('unit',) and st and st[-1].get('k') == 'Expr' and st[-1].get('semi') and all(x.get('k') == 'Local' for x in st[:-1]):
+        # a unit function whose last statement is the effect (`x.to_tokens(ts);`): the effect is its "value"
+        try:
+            evs = [ev for ev in fw.events if ev.node is st[-1]['expr']]
+            if evs:
+                t2 = tm.term(st[-1]['expr'], evs[0].scope)
+                if isinstance(t2, tuple) and t2 and t2[0] != 'opaque':
+                    t = t2
+        except Exception:
+            pass
     for i_, (n_, _) in enumerate(f.params()):
         t = subst_term(t, ('param', n_), ('param', i_))
     return t
@@ -78,6 +89,11 @@ def check_ident_or_index(cx, rep, rule='IDX-HELPER'):
         from ..terms import match_arms
         t = fn_term(cx, tt[0])
         ma = match_arms(t)
+        if ma is None and isinstance(t, tuple) and t and t[0] == 'mcall' and len(t) == 4 and t[2] == 'to_tokens':
+            # `let x: &dyn ToTokens = match self { .. => ident, .. => index }; x.to_tokens(ts)`: the call distributes over the arms
+            mr = match_arms(t[1])
+            if mr is not None:
+                ma = (mr[0], [(ps_, ('mcall', v, 'to_tokens', t[3])) for ps_, v in mr[1]])
         if ma and ma[0] == P(0) and len(ma[1]) == 2:
             got = {}
             for ps_, v in ma[1]:
@@ -134,7 +150,24 @@ def ctor_string_args(cx, f, key):
     return out
 
 
+def field_of_type(cx, fn_or_name, type_names, module_path=None):
+    """member key of the single field whose declared type is one of `type_names`"""
+    name = fn_or_name if isinstance(fn_or_name, str) else fn_or_name.self_ty
+    mp = module_path if module_path is not None else (None if isinstance(fn_or_name, str) else tuple(fn_or_name.module.path))
+    for (m, n), it in cx.crate.types.items():
+        if n == name and it['k'] == 'Struct' and (mp is None or tuple(m) == tuple(mp)):
+            fs = it['fields']['fields']
+            hits = [(i, f) for i, f in enumerate(fs) if ty_s(f['ty']).replace(' ', '') in type_names]
+            if len(hits) == 1:
+                i, f = hits[0]
+                return f['name'] if f.get('name') else i
+    return None
+
+
 def check_hash_type_tokens(cx, rep, rule='SUM-INTO'):
+    """HashType = (key string, span, tokens): what is emitted are the *tokens of the type as given* (re-lexing the string form loses
+    `$crate` and invisible groups and panics), what is compared is a string computed from those tokens alone"""
+    TOK = ('TokenStream', 'proc_macro2::TokenStream')
     tt = [g for g in cx.crate.fns if g.self_ty == 'HashType' and g.name == 'to_tokens']
     ok = False
     if len(tt) == 1:
@@ -145,36 +178,89 @@ def check_hash_type_tokens(cx, rep, rule='SUM-INTO'):
         ext = [ev for ev in fw.events if ev.kind == 'mcall' and ev.method in ('extend', 'append_all') and len(names) == 2
                and tm.term(ev.recv, ev.scope) == ('param', names[1])]
         others = [ev for ev in fw.events if ev.kind in ('macro',) and 'tmpl' in ev.mac]
-        if len(ext) == 1 and len(ext[0].args) == 1 and not ext[0].ctx and not others:
+        tk = field_of_type(cx, g, TOK)
+        if len(ext) == 1 and len(ext[0].args) == 1 and not ext[0].ctx and not others and tk is not None:
             a = tm.term(ext[0].args[0], ext[0].scope)
-            src = ('field', ('param', names[0]), string_field_of(cx, g))
-            ok = a in (('unwrap', ('call', 'proc_macro2::TokenStream::from_str', src)), ('unwrap', ('call', 'TokenStream::from_str', src)),
-                       ('unwrap', ('mcall', src, 'parse')))
+            src = ('field', ('param', names[0]), tk)
+            ok = a in (('mcall', src, 'clone'), src, ('mcall', src, 'to_token_stream'), ('mcall', ('mcall', src, 'clone'), 'into_iter'))
     if ok:
-        rep.ok(rule, tt[0].qname + '|prints the stored type string')
+        rep.ok(rule, tt[0].qname + '|emits the stored tokens of the type')
     else:
-        rep.bad(rule, 'common::tools::hash_type::HashType', 'to_tokens', 'a target type is no longer printed as its stored token string', 'src/common/tools/hash_type.rs', tt[0].line if tt else 1)
+        rep.bad(rule, 'common::tools::hash_type::HashType', 'to_tokens', 'a target type is not emitted as the tokens it was given as (a string round trip loses `$crate` / invisible groups and can panic)',
+                'src/common/tools/hash_type.rs', tt[0].line if tt else 1)
     fr = [g for g in cx.crate.fns if g.self_ty == 'HashType' and g.name == 'from']
     n = 0
     for g in fr:
         ps = [a for a in g.sig['inputs'] if a['k'] == 'Typed']
         t = ps[0]['ty']
-        p0 = [p_[0] for p_ in g.params()][:1]
         if t['k'] == 'Ref':
-            key = string_field_of(cx, g)
-            args = ctor_string_args(cx, g, key)
-            good = len(args) == 1 and p0 and args[0] in (('mcall', ('mcall', ('param', p0[0]), 'into_token_stream'), 'to_string'),
-                                                         ('mcall', ('mcall', ('param', p0[0]), 'to_token_stream'), 'to_string'))
+            gt = fn_term(cx, g)
+            good = gt in (('call', 'Self::new', ('mcall', P(0), 'into_token_stream'), ('mcall', P(0), 'span')),
+                          ('call', 'HashType::new', ('mcall', P(0), 'into_token_stream'), ('mcall', P(0), 'span')),
+                          ('call', 'Self::new', ('mcall', P(0), 'to_token_stream'), ('mcall', P(0), 'span')))
         else:
             gt = fn_term(cx, g)
-            good = gt in (('call', 'Self::from', P(0)), ('call', 'HashType::from', P(0)))
+            good = gt in (('call', 'Self::from', P(0)), ('call', 'HashType::from', P(0)), ('call', 'Self::from', ('ref', P(0))), ('call', 'HashType::from', ('ref', P(0))))
         n += 1
         if good:
             rep.ok(rule, '%s|From<%s>' % (g.qname, ty_s(t)))
         else:
-            rep.bad(rule, g.qname, 'From<%s>' % ty_s(t), 'the type key is no longer the token string of the type', g.file, g.line)
+            rep.bad(rule, g.qname, 'From<%s>' % ty_s(t), 'a HashType is not built from the tokens (and span) of the value alone', g.file, g.line)
     if n != 4:
         rep.bad(rule, 'common::tools::hash_type::HashType', 'from-impls', 'expected 4 From impls, found %d' % n, 'src/common/tools/hash_type.rs', 1)
+    # the constructor: key = token_string(tokens), tokens stored unchanged
+    nw = [g for g in cx.crate.fns if g.self_ty == 'HashType' and g.name == 'new']
+    good = False
+    if len(nw) == 1:
+        g = nw[0]
+        fw = cx.fw(g)
+        tm = cx.gm.terms_of(fw)
+        p0 = [p_[0] for p_ in g.params()]
+        sk, tk = string_field_of(cx, g), field_of_type(cx, g, TOK)
+        ctors = [ev for ev in fw.events if ev.kind == 'call' and ev.path in ('Self', 'HashType')]
+        if len(ctors) == 1 and isinstance(sk, int) and isinstance(tk, int) and len(ctors[0].args) > max(sk, tk) and p0:
+            key_t = tm.term(ctors[0].args[sk], ctors[0].scope)
+            tok_t = tm.term(ctors[0].args[tk], ctors[0].scope)
+            fills = [ev for ev in fw.events if ev.kind == 'call' and ev.path and ev.path.split('::')[-1] == 'token_string' and len(ev.args) == 2]
+            if tok_t == ('param', p0[0]) and len(fills) == 1 and not fills[0].ctx:
+                a0 = tm.term(fills[0].args[0], fills[0].scope)
+                a1 = tm.term(fills[0].args[1], fills[0].scope)
+                while isinstance(a1, tuple) and a1 and a1[0] in ('ref', 'refmut') and len(a1) == 2:
+                    a1 = a1[1]
+                fresh = key_t in (('call', 'String::new'), ('call', 'String::default')) or (isinstance(key_t, tuple) and key_t and key_t[0] == 'var')
+                good = fresh and a0 in (('mcall', ('param', p0[0]), 'clone'), ('param', p0[0])) and a1 == key_t
+                # the key string is written by token_string only
+                if any(ev.kind == 'mcall' and ev.method in ('push', 'push_str', 'insert_str', 'extend') and tm.term(ev.recv, ev.scope) == key_t for ev in fw.events) \
+                        or any(ev.kind == 'assign' for ev in fw.events):
+                    good = False
+    if good:
+        rep.ok(rule, nw[0].qname + '|key = token_string(tokens), tokens stored as given')
+    else:
+        rep.bad(rule, 'common::tools::hash_type::HashType', 'new', 'the key of a HashType is not computed from its tokens by `token_string` alone, or the tokens are not stored as given',
+                'src/common/tools/hash_type.rs', nw[0].line if nw else 1)
+    # token_string: leaf tokens are printed one by one; `to_string()` is never applied to a group or a whole stream (that is where the
+    # source spacing leaks in)
+    ts = [g for g in cx.crate.fns if g.name == 'token_string' and tuple(g.module.path) == ('common', 'tools', 'hash_type')]
+    good = False
+    if len(ts) == 1:
+        g = ts[0]
+        fw = cx.fw(g)
+        calls = [ev for ev in fw.events if ev.kind == 'mcall' and ev.method == 'to_string']
+        good = bool(calls)
+        for ev in calls:
+            arms = [c_ for c_ in ev.ctx if c_['k'] == 'arm']
+            in_group_arm = any('Group' in pat_s(c_['pat']) for c_ in arms)
+            after_group_arm = any(any('TokenTree::Group' in pat_s(p_) for p_ in (c_.get('earlier') or [])) for c_ in arms)
+            if in_group_arm or not after_group_arm:
+                good = False
+        loops = [ev for ev in fw.events if ev.kind == 'for']
+        if len(loops) != 1:
+            good = False
+    if good:
+        rep.ok(rule, ts[0].qname + '|prints leaf tokens only, groups structurally')
+    else:
+        rep.bad(rule, 'common::tools::hash_type', 'token_string', 'the comparison key is not printed token by token (a `to_string()` of a group or stream reproduces the spacing of the source text)',
+                'src/common/tools/hash_type.rs', ts[0].line if ts else 1)
 
 
 def check_type_with_meta(cx, rep, rule='PARAM'):
